@@ -88,6 +88,14 @@ def body_defs():
         return [["C_CreateObject s=%d tpl=%s" % (s0, tpl(F.template("aes128", token=False, private=True, label=b"n0")))], ["C_CreateObject s=%d tpl=%s" % (s1, tpl(F.template("aes128", token=False, private=True, label=b"n1")))]], ["FINDALL s=%d tpl=" % s0]
     B["create-vs-create-session-objects"] = b_create_create_session
 
+    def b_close_owner_create(ctx):
+        # the closing session OWNS a session object (its close rewrites the session-object table) while another session adds one
+        s0, s1, s2 = user_sessions(ctx, 3)
+        W.ok(ctx.p.CreateObject(s0, F.template("data", token=False, private=False, label=b"owned-by-closing")), "o")
+        return [["C_CloseSession s=%d" % s0], ["C_CreateObject s=%d tpl=%s" % (s1, tpl(F.template("data", token=False, private=False, label=b"made-meanwhile"))),
+                                               "FINDALL s=%d tpl=%s" % (s1, LBL(b"made-meanwhile"))]], ["FINDALL s=%d tpl=" % s2, "FINDALL s=%d tpl=%s" % (s2, LBL(b"made-meanwhile"))]
+    B["close-session-owning-objects-vs-create-session-object"] = b_close_owner_create
+
     def b_create_create_token(ctx):
         s0, s1 = user_sessions(ctx)
         return [["C_CreateObject s=%d tpl=%s" % (s0, tpl(F.template("data", token=True, private=False, label=b"t0")))], ["C_CreateObject s=%d tpl=%s" % (s1, tpl(F.template("data", token=True, private=False, label=b"t1")))]], ["FINDALL s=%d tpl=" % s0]
